@@ -955,6 +955,10 @@ func Abs(env envs.Environment, num *types.XNumber) types.XValue {
 //
 // @function round(number [,places])
 func Round(env envs.Environment, num *types.XNumber, places int) types.XValue {
+	if xerr := checkRoundingPlaces(places); xerr != nil {
+		return xerr
+	}
+
 	return types.NewXNumber(num.Native().Round(int32(places)))
 }
 
@@ -971,6 +975,10 @@ func Round(env envs.Environment, num *types.XNumber, places int) types.XValue {
 //
 // @function round_up(number [,places])
 func RoundUp(env envs.Environment, num *types.XNumber, places int) types.XValue {
+	if xerr := checkRoundingPlaces(places); xerr != nil {
+		return xerr
+	}
+
 	dec := num.Native()
 	if dec.Round(int32(places)).Equal(dec) {
 		return num
@@ -995,6 +1003,10 @@ func RoundUp(env envs.Environment, num *types.XNumber, places int) types.XValue 
 //
 // @function round_down(number [,places])
 func RoundDown(env envs.Environment, num *types.XNumber, places int) types.XValue {
+	if xerr := checkRoundingPlaces(places); xerr != nil {
+		return xerr
+	}
+
 	dec := num.Native()
 	if dec.Round(int32(places)).Equal(dec) {
 		return num
@@ -1004,6 +1016,16 @@ func RoundDown(env envs.Environment, num *types.XNumber, places int) types.XValu
 	roundedDec := dec.Sub(halfPrecision).Round(int32(places))
 
 	return types.NewXNumber(roundedDec)
+}
+
+// rounding scales a number by 10^places so the number of places has to be limited
+const maxRoundingPlaces = 1000
+
+func checkRoundingPlaces(places int) *types.XError {
+	if places < -maxRoundingPlaces || places > maxRoundingPlaces {
+		return types.NewXErrorf("number of places must be between %d and %d, got %d", -maxRoundingPlaces, maxRoundingPlaces, places)
+	}
+	return nil
 }
 
 // Max returns the maximum value in `numbers`.
